@@ -1045,7 +1045,8 @@ pub fn key_class(k: &str) -> String {
 
 /// Differences between two contents as (class, detail); at most one per class.
 pub fn diff(a: &Content, b: &Content, what_a: &str, what_b: &str) -> Vec<(String, String)> {
-    // class = "<verb> <section class>", verb in loses / invents / alters (seen from a to b)
+    // class = "<verb> <section class>", verb in loses / invents / extends (a is a proper prefix of b) /
+    // truncates / alters (seen from a to b)
     let mut out: Vec<(String, String)> = vec![];
     let mut keys: Vec<&String> = a.keys().chain(b.keys()).collect();
     keys.sort();
@@ -1058,6 +1059,8 @@ pub fn diff(a: &Content, b: &Content, what_a: &str, what_b: &str) -> Vec<(String
         let verb = match (x, y) {
             (Some(_), None) => "loses",
             (None, Some(_)) => "invents",
+            (Some(x), Some(y)) if y.len() > x.len() && y[..x.len()] == x[..] => "extends",
+            (Some(x), Some(y)) if x.len() > y.len() && x[..y.len()] == y[..] => "truncates",
             _ => "alters",
         };
         let cls = format!("{verb} {}", key_class(k));
